@@ -265,14 +265,14 @@ def main():
     shapes = [((1,),), ((4,), (1,)), ((), (5, 4)), ((5,), (), (4,)), (), ((),)]      # incl. no line at all and one empty line
     if th:
         shapes = []
-        for nl in (1, 2):
-            for lines in itertools.product(*[[()] + [(a,) for a in ar] + [(a, b) for a in ar for b in ar]] * nl):
-                shapes.append(tuple(lines))
+        one = [()] + [(a,) for a in ar] + [(a, b) for a in ar for b in ar]
+        shapes += [(l,) for l in one]
+        shapes += [(l1, l2) for l1 in ((), (1,), (4,), (5, 4)) for l2 in ((), (1,), (5,), (4, 1))]
         shapes.append(((5,), (), (4,)))
         shapes.append(())
     for sh in shapes:
         n = sum(len(l) and sum(l) for l in sh)
-        for wide in (range(max(n, 1)) if th else sorted({0, max(n - 1, 0)})):
+        for wide in (sorted({0, max(n // 2, 0), max(n - 1, 0)}) if th else sorted({0, max(n - 1, 0)})):
             tasks.append(('mappings', (WL, sh, 14, wide)))
     results = common.pmap(_run_task, tasks)
     tot = dict(paths=0, reached=0, z3_checks=0, assertions=0, solver_s=0.0)
